@@ -8,7 +8,7 @@ classification `segmentController.open` performs at start-up, on the file-system
     lf.Write(json)                    = write                        — **no fsync of the file, none of `seg`**
 then the segment is loaded and tables are created in it: `shard-<n>` is `mkdir + fsync(seg)` — which makes the
 *entry* `seg/metadata` durable, not its content — and the table writes and fsyncs its data.
-`atomic = true` is the proposed repair (finding F72): the metadata goes through `WriteAtomic`.
+`atomic = true` is the proposed repair (finding F04s): the metadata goes through `WriteAtomic`.
 
 `openSegs` is `open()`: a segment directory whose `metadata` is missing or empty is "half-born" and removed with
 everything in it; a non-empty `metadata` that does not parse makes `OpenTSDB` fail; the others are loaded.
